@@ -23,7 +23,7 @@ def register(R):
         modifies=["read_bio.eof", "read_bio.pending", "ghost.IN", "ghost.recv_calls", "ghost.EOF", "ghost.io_errors", "self.buffer.data"],
         tags="C09 C10",
     )
-    mods = ["ghost.tls_cause", "ghost.tls_ops_returned", "ghost.WIRE", "ghost.IN", "ghost.recv_calls", "ghost.EOF", "ghost.io_errors", "ghost.TLSOUT", "ghost.locks_held",
+    mods = ["ghost.ssl_retry_calls", "ghost.tls_cause", "ghost.tls_ops_returned", "ghost.WIRE", "ghost.IN", "ghost.recv_calls", "ghost.EOF", "ghost.io_errors", "ghost.TLSOUT", "ghost.locks_held",
             "self._read_bio.eof", "self._read_bio.pending", "self._write_bio.eof", "self._write_bio.pending",
             "self._AsyncTLSStreamTransport__transport_send_lock.held_by_me", "self._AsyncTLSStreamTransport__transport_recv_lock.held_by_me",
             "self._AsyncTLSStreamTransport__incoming_reader.buffer.data"]
@@ -34,7 +34,10 @@ def register(R):
         loops={1: {"inv": ["not self.__transport_send_lock.held_by_me", "not self.__transport_recv_lock.held_by_me", "ghost.locks_held == old(ghost.locks_held)",
                            "ghost.tls_ops_returned == old(ghost.tls_ops_returned)",
                            "self._read_bio.eof == old(self._read_bio.eof) or ghost.EOF", "self._write_bio.eof == old(self._write_bio.eof)"]}},
-        ensures=[("operation-returned", "ghost.tls_cause == 0", "C09"), ("locks-released", "not self.__transport_send_lock.held_by_me and not self.__transport_recv_lock.held_by_me", "C12")],
+        ensures=[("operation-returned", "ghost.tls_cause == 0", "C09"), ("locks-released", "not self.__transport_send_lock.held_by_me and not self.__transport_recv_lock.held_by_me", "C12"),
+                 ("ciphertext-the-completed-operation-produced (application data, the close notification of unwrap()) has been handed to the transport "
+                  "when its result is returned - also while the transport is closing",
+                  "self._write_bio.pending == 0", "C09 C04")],
         raises={
             "ssl.SSLZeroReturnError": [("only-after-the-peers-close-notify", "ghost.tls_cause == 1", "C09")],
             "ssl.SSLEOFError": [("transport-ended-without-close-notify", "ghost.tls_cause == 2", "C09")],
@@ -47,7 +50,7 @@ def register(R):
         },
         requires=[("locks-free", "not self.__transport_send_lock.held_by_me and not self.__transport_recv_lock.held_by_me")],
         modifies=mods,
-        env={"trace_branches": ["pending"],
+        env={"trace_branches": ["pending"], "ghost_on_call": {"ssl_retry_calls": "ghost.ssl_retry_calls + 1"},
              "await_pre": {"self.__transport_recv_lock": (
                  "ciphertext-produced-so-far (e.g. the close notification of unwrap()) is flushed BEFORE waiting for the receive lock, which another task may hold for as long as the peer is silent",
                  "self._write_bio.pending == 0", "C09 C14")}},
